@@ -296,10 +296,8 @@ def calc_bandwidth_freqs(asig, ratio=0.707):
     fas1_smooth = asig.smooth_fa_spectrum
     max_fas1 = max(fas1_smooth)
     lim_fas = max_fas1 * ratio
-    ind2 = np.where(fas1_smooth > lim_fas)
-    min_freq = asig.smooth_fa_frequencies[ind2[0][0]]
-    max_freq = asig.smooth_fa_frequencies[ind2[0][-1]]
-    return min_freq, max_freq
+    freqs_above = np.asarray(asig.smooth_fa_frequencies)[np.where(fas1_smooth > lim_fas)[0]]
+    return np.min(freqs_above), np.max(freqs_above)  # not first / last entry: the smoothing frequencies need not be ascending
 
 
 def calc_bandwidth_f_min(asig, ratio=0.707):
@@ -320,9 +318,8 @@ def calc_bandwidth_f_min(asig, ratio=0.707):
     fas1_smooth = asig.smooth_fa_spectrum
     max_fas1 = max(fas1_smooth)
     lim_fas = max_fas1 * ratio
-    ind2 = np.where(fas1_smooth > lim_fas)
-    min_freq = asig.smooth_fa_frequencies[ind2[0][0]]
-    return min_freq
+    freqs_above = np.asarray(asig.smooth_fa_frequencies)[np.where(fas1_smooth > lim_fas)[0]]
+    return np.min(freqs_above)
 
 
 def calc_bandwidth_f_max(asig, ratio=0.707):
@@ -343,9 +340,8 @@ def calc_bandwidth_f_max(asig, ratio=0.707):
     fas1_smooth = asig.smooth_fa_spectrum
     max_fas1 = max(fas1_smooth)
     lim_fas = max_fas1 * ratio
-    ind2 = np.where(fas1_smooth > lim_fas)
-    max_freq = asig.smooth_fa_frequencies[ind2[0][-1]]
-    return max_freq
+    freqs_above = np.asarray(asig.smooth_fa_frequencies)[np.where(fas1_smooth > lim_fas)[0]]
+    return np.max(freqs_above)
 
 
 def calc_bracketed_duration(asig, threshold):
